@@ -15,7 +15,7 @@ REG = {
     note="Bounded: model N<=40, pool of 2; replay N in {3,4,5,11,12,13,25,40}; recorded histories use tables of 3..2000 points and "
          "prefactors +-2^k. Trusted: TLC, the recorder's projection of real arguments to position codes (std::lower_bound), "
          "IEEE exactness of power-of-two scaling. The cache fields themselves are not observed (no hook): the algorithm-level "
-         "model is bound through Locate's return value only, disagreement there is reported as model drift, not as a violation.",
+         "model is bound through Locate's return value only, disagreement there is reported as model drift, not as a violation. Added late: 2D tables taller than wide as often as wide, and jumps between cells that a wrongly strided flattened cell number would identify.",
     technique="TLA+ state machine of the index-search cache (TLC exhaustive) + per-transition replay + trace validation of recorded call histories"),
  "C19": dict(
     engine="spec/Helpers.tla, WDCore.tla, proofs/WD_Proof.tla (TLAPS), MC_Helpers.tla (+5 cfgs), Trace_Helpers.tla, Rat.tla; harness/c19.cpp",
@@ -53,7 +53,7 @@ REG = {
          "non-empty diagnostic, and no request ends in a signal, libstdc++ assertion or sanitizer report.",
     note="quick: g++ -D_GLIBCXX_ASSERTIONS build; thorough: additionally clang++ -fsanitize=address,undefined. Requests outside the "
          "enumerated abstract domains are not decided. Rows where the statement leaves the outcome open (two-point axes of the 2D "
-         "table, cdf in {0,1} for Inv_CDF_Poisson, Inv_Erf(1), envelope exceeded by <1%) accept either outcome but never a memory error.",
+         "table, cdf in {0,1} for Inv_CDF_Poisson, Inv_Erf(1), envelope exceeded by <1%) accept either outcome but never a memory error. Added late: every Method request also with an empty outermost integration range (the name is still judged), Method3D for both Integrate_3D overloads.",
     technique="TLA+ decision-table specification enumerated by TLC; every request executed in a child process and its outcome trace-validated; object histories from the TLA+ state machine Shape.tla (behaviours generated by TLC, replayed in the real objects, probes of every guard on the objects as they are now)"),
  "C01": dict(
     engine="spec/Steffen.tla, MC_Steffen.tla, Bilinear.tla, MC_Bilinear.tla, Trace_Interp.tla, Rat.tla; harness/interp.cpp",
@@ -134,7 +134,7 @@ REG = {
     note="The exact reference covers integer and half-integer a up to 400 (1000 thorough) on ~40 abscissae each; other real a are decided through "
          "relations between the library's own values only. Binomial_Coefficient for n>170 (exp(GammaLn) path) is accepted within 64 eps ln(n!) "
          "relative, 32 eps below; Factorial within 16 eps. Inverse round trips are skipped where the quantile underflows (a<0.06, p<P(1e-290,a)). "
-         "Trusted: TLC, libm long-double expl/erfcl/sqrtl/logl/lgammal.",
+         "Trusted: TLC, libm long-double expl/erfcl/sqrtl/logl/lgammal. The memo table is observed through a weak reference; when a build does not export it, histories run in fresh processes and only values are judged.",
     technique="arbitrary-precision TLA+ specification of the rational part of the Gamma family (TLC: memo-table state machine, Pascal, exact Q series as a Horner machine) + replay of exported exact values + trace validation of recorded relations"),
  "C02": dict(
     engine="spec/Ridder.tla, MC_Ridder.tla, Trace_Root.tla (2 cfgs); harness/c02.cpp",
@@ -223,7 +223,7 @@ REG = {
          "area, mass multiples...). The same constants are printed by programs built with g++ and clang++ at -O0 and -O2: non-zero, within 4 ulp of their defining product formed "
          "at run time, bit-identical in all four builds. All six In_Units overloads are checked element-wise against the scalar one and against Round.",
     note="Only the two installed compilers are covered. Definitions using M_PI, sqrt or non-integer powers are checked for initialisation order only. Values whose quotient by the unit "
-         "leaves the normal range of doubles are not generated.",
+         "leaves the normal range of doubles are not generated. Beyond the property (note level): Save_Function of both interpolation classes as exporters of the same file machine (ExportImport.tla SavedRows/SavedOK, Trace_Files!TSaved). The unit parser reads namespace-scope definitions only.",
     technique="TLA+ file machine (TLC exhaustive over shapes/headers) with trace validation of recorded round trips + TLA+ initialisation-order machine and exact arbitrary-precision unit algebra over the parsed source + four-build comparison of the constants"),
  "C16": dict(
     engine="spec/Geometry.tla, MC_Geometry.tla, Trace_Geometry.tla, Rat.tla; harness/c16.cpp",
@@ -235,7 +235,7 @@ REG = {
          "angles in [-4pi,4pi], axes on the sphere, along the coordinate directions, within 1e-16..1e-6 of +-z and exactly +-z, lengths 1e-6..1e6 (orthogonality, determinant, fixed "
          "axis, composition, turning angle and handedness, the 2D rotation, plain spherical components, axis-relative norm, polar angle and right-handed advance in phi) are accepted "
          "by Trace_Geometry, which also demands that every axis class was exercised and every result is finite.",
-    note="Exact on the rational lattice; elsewhere residual bounds of 16-64 eps for rotations and 1e-12 (norm, polar cosine) / 1e-11 (handedness) for spherical coordinates.",
+    note="Exact on the rational lattice; elsewhere residual bounds of 16-64 eps for rotations and 1e-12 (norm, polar cosine) / 1e-11 (handedness) for spherical coordinates. Beyond the property (note level): Angle, Normalize, Normalized (Trace_Geometry!TAux).",
     technique="exact-rational TLA+ model of Rodrigues rotations (TLC exhaustive on Pythagorean angles x axes), replay of the exact matrices, trace validation of recorded geometric relations per axis class"),
  "C17": dict(
     engine="spec/Scalars.tla, MC_Scalars.tla (3 cfgs), Trace_Scalars.tla, Rat.tla; harness/c17.cpp",
@@ -283,7 +283,7 @@ REG = {
          "Q diag(lambda) Q^T with ratios 0.1..0.8 of either sign, and QR_Decomposition is checked on random non-singular matrices of sizes 1..7 with condition numbers up to 1e6 "
          "(Q orthogonal, R upper triangular exactly, QR = M).",
     note="Spectrum within 1e-10 ||M||, residuals within 1e-11 ||M||: these reflect the library's own iteration thresholds rather than rounding. The Jacobi reference of the statement is "
-         "replaced by planted spectra (the truth is an input). Determinant = product of eigenvalues is covered through the planted spectrum only.",
+         "replaced by planted spectra (the truth is an input). Determinant = product of eigenvalues is covered through the planted spectrum only. Every second Eigensystem case takes its vectors from the free function Eigenvectors.",
     technique="exact integer TLA+ model of symmetric matrices with planted eigen-structure (TLC exhaustive over block patterns and permutations), replay through Eigenvalues/Eigensystem in child processes with time limits, trace validation of residuals and termination"),
  "C07": dict(
     engine="spec/Distributions.tla, MC_Dist.tla, Gamma.tla (Pascal and Horner machines), Big.tla, Trace_Dist.tla; harness/c07.cpp",
@@ -297,6 +297,6 @@ REG = {
          ">= 0, CDF within [0,1], non-decreasing, 0 and 1 in the tails, increments equal to a quadrature of the library's own density; KDE non-negative and normalised. Trace_Dist checks "
          "every residual in the tolerance class the family and parameter call for.",
     note="Continuous CDFs are checked for coherence with their own densities (as stated), not against an independent reference. Chi-square above 200 degrees of freedom inherits the 1e-3 "
-         "accuracy class of the a>100 incomplete gamma function. KDE normalisation within 1e-5. Poisson mean 0 is outside the quantifier.",
+         "accuracy class of the a>100 incomplete gamma function. KDE normalisation within 1e-5. Poisson mean 0 is outside the quantifier. Added late: PDF_Gauss_2D against the product of the one-dimensional densities (widths up to six decades apart), binomial masses/CDF at p within 2^-7 and 2^-12 of 0 and 1, Quantile_Gauss in both far tails and the centre for every normal case.",
     technique="arbitrary-precision TLA+ series for the discrete families (Horner/Pascal state machines, TLC) replayed through PMF/CDF/likelihood functions + trace validation of recorded coherence relations of the continuous families"),
 }
